@@ -1574,7 +1574,8 @@ func op_jmp(cpu *CPU) {
 		cpu.PC = cpu.nRead16_wrap(0x00, cpu.StepInfo.Addr)
 		cpu.RK = cpu.nRead(0x00, cpu.StepInfo.Addr+2)
 	default:
-		cpu.PC = cpu.cmdRead16()
+		// (abs,X): the pointer was already read with its second byte wrapping inside the program bank
+		cpu.PC = cpu.StepInfo.Addr
 	}
 	cpu.stepPC = 0
 }
@@ -1595,7 +1596,8 @@ func op_jsr(cpu *CPU) {
 	case m_Absolute:
 		cpu.PC = cpu.StepInfo.Addr
 	default:
-		cpu.PC = cpu.cmdRead16()
+		// (abs,X): the pointer was already read with its second byte wrapping inside the program bank
+		cpu.PC = cpu.StepInfo.Addr
 	}
 	cpu.stepPC = 0
 }
